@@ -460,3 +460,27 @@ Theorem C07_generated_model_run_call_is_generated_call {F : Type} `{Num F} (m : 
 Proof. exact (generated_call_is_sem_call m inputs trainables edges sorted_by_name X rs w e' s). Qed.
 
 Print Assumptions C07_generated_model_run_call_is_generated_call.
+
+(* Model.run (the loop over the SEQUENCES) translated from reservoirpy/model.py on every run (tools/vlib/py2coq_mrun2.py -> gen/Gen_mrun2.v),
+   its `_run` being the generated Model._run of gen/Gen_mrun.v under the reading above, `with self.with_state(reset=.., stateful=..)` =
+   start_env with no state mapping / restore_st, to_data_mapping a partial function that leaves the states alone, `l[0]` raising on the
+   empty list, _initialize_on_sequence leaving the states alone, fold_mapping a function of the per-sequence logs: the generated `run` IS the
+   fold over the sequences of seq_op (the outer with_state around run_op with reset = False and from_state), the environment carried from
+   one sequence to the next and restored after each unless stateful, for every flag and both outcomes; every sequence's rows are those of
+   the states selected after step 0, 1, .. *)
+From RV Require Import gen.Gen_mrun2 proofs.Gen_mrun2_eq.
+Theorem C07_generated_model_run_seqs {F : Type} `{Num F} (m : @model F) (RS : Type) (sel : RS -> @env F -> selstate (list F))
+    (out0 : node) (XD FD OUT : Type)
+    (tdm : XD -> FD -> option (list (list (nat -> option (list F))) * list (list (nat -> option (list F)))))
+    (fm : list (wlog (list F)) -> RS -> OUT) (X : XD) (FB : FD) from stateful reset shift rs (w : cworld) xs fbs :
+  tdm X FB = Some (xs, fbs) -> xs <> [] -> fbs <> [] ->
+  let '(w', r) := g_model_run m RS sel out0 XD FD OUT tdm fm X FB from stateful reset shift rs w in
+  let '(e', outs, ok) := run_seqs2 m stateful reset from (map (fun p => combine (fst p) (snd p)) (combine xs fbs)) (cur w) in
+  cur w' = e' /\ fbm w' = fbm w /\
+  match r with
+  | CtxPrelude.Ok o => ok = true /\ exists logs, o = fm logs rs /\ Forall2 (log_ok m RS sel out0 rs) logs outs
+  | CtxPrelude.Exc _ => ok = false
+  end.
+Proof. exact (gen_model_run_is_run_seqs m RS sel out0 XD FD OUT tdm fm X FB from stateful reset shift rs w xs fbs). Qed.
+
+Print Assumptions C07_generated_model_run_seqs.
